@@ -34,6 +34,13 @@ def run(tier):
     ck.extra['placement_decided'] = placed
     ck.extra['placement_undecided'] = unplaced
     ck.extra['placement_undecided_by_operation'] = unp
+    skipped = {}
+    for x in r:
+        for o in x['res'].get('skipped_operations', []):
+            skipped[o] = skipped.get(o, 0) + 1
+    if skipped:
+        ck.note('operations skipped in some configuration because of the path limit: %s' % skipped)
+    ck.extra['skipped_operations'] = skipped
     ck.floor('public operations with a specified law', len(ops), 40)
     ck.floor('path verdicts (size / position / at) decided', decided, 5000 if tier == 'quick' else 30000)
     ck.note('operations covered: %s' % ', '.join(sorted(ops)))
